@@ -9,15 +9,19 @@ import (
 // verifSmoothings: the smoothing constants covered (library defaults 1.0 / 0.2 plus edge values).
 var verifSmoothings = []float64{1.0, 0.2, 0.9, 0.5, 0.1, 0.01}
 
+// verifQuickSmooth: number of smoothing constants explored in the quick tier (harnesses with many
+// paths lower it to 1 before building the state; the thorough tier always uses the whole list).
+var verifQuickSmooth = 2
+
 const relax = 1.0 + 1.0/1099511627776.0 // 1 + 2^-40: tier-R invariants are inductive only up to rounding noise
 
 // verifVegasState builds a VegasLimit through the real constructor with a symbolic valid
 // configuration and then imposes an arbitrary state satisfying the representation invariant
 //   1 <= est <= max(maxLimit, initial)*(1+2^-40), jitter in [0.5,1), probeCount >= 0, baseline >= 0.
-func verifVegasState() (l *VegasLimit, hi int) {
+func verifVegasState(smallRTT bool) (l *VegasLimit, hi int) {
 	initial := verif.Int("initial")
 	maxC := verif.Int("max")
-	smoothing := verifSmoothings[verif.Choice("smoothing", verif.Tiered(2, len(verifSmoothings)))]
+	smoothing := verifSmoothings[verif.Choice("smoothing", verif.Tiered(verifQuickSmooth, len(verifSmoothings)))]
 	probeMult := verif.Int("probeMult")
 	verif.Assume(initial >= 1 && initial < 1<<31 && maxC >= 1 && maxC < 1<<31)
 	verif.Assume(smoothing > 0 && smoothing <= 1)
@@ -38,6 +42,7 @@ func verifVegasState() (l *VegasLimit, hi int) {
 	l.probeCount = pc
 	base := verif.Int64("baseline")
 	verif.Assume(base >= 0 && base <= 1<<62)
+	verif.Assume(!smallRTT || base <= 1<<53) // exactly representable baselines for the C06/C07/C08 lemmas
 	l.rttNoLoad.Add(float64(base))
 	return l, hi
 }
@@ -47,7 +52,7 @@ func verifVegasState() (l *VegasLimit, hi int) {
 //
 //verif:harness property=C04 theory=real tier=quick timeout=120
 func VerifC04_Vegas_Step() {
-	l, hi := verifVegasState()
+	l, hi := verifVegasState(false)
 	s := l.smoothing
 	// exactness lemma fl(fl(1-s)+s) >= 1 (proved bit-precisely by VerifLemma_OneMinusSPlusS)
 	verif.Assume((1-s)+s >= 1)
